@@ -88,6 +88,34 @@ def attempt(kind, phase, fault, base, crash_at=None, exc_at=None, crash_after=No
     return out
 
 
+def mem_attempt(fault, base, kind='mem'):
+    """An IN-MEMORY task (no store, no crash points): its run fails once, then the value is requested again from the
+    same object, then from a downstream persisted task of a new chain."""
+    chain = build(kind, base)
+    t = chain['g:t']
+    _ = chain['up'].value
+    gen.CTRL['gen'] = None
+    if fault in ('raise', 'interrupt'):
+        gen.CTRL['raise'] = {'slug': 'g:t'}
+        gen.CTRL['raise_base'] = fault == 'interrupt'
+    else:
+        gen.CTRL['bad'] = {json.dumps({'slug': 'g:t'}): fault}
+    out = {'exc': None}
+    try:
+        _ = t.value
+    except BaseException as e:  # noqa
+        out['exc'] = f'{type(e).__name__}: {e}'[:200]
+    gen.CTRL['raise'], gen.CTRL['raise_base'], gen.CTRL['bad'] = None, False, {}
+    gen.RUNLOG.clear()
+    try:
+        out['retry'] = _nogen(gen.decode(kind, t.value))
+        out['retry_exc'] = None
+    except BaseException as e:  # noqa
+        out['retry_exc'] = f'{type(e).__name__}: {e}'[:200]
+    out['retry_runs'] = [e['slug'] for e in gen.RUNLOG]
+    return out
+
+
 def _nogen(tree):
     if isinstance(tree, dict):
         return {k: _nogen(v) for k, v in tree.items() if k != '#gen'}
